@@ -21,6 +21,7 @@ TNext ==
        /\ bad' = IF Ev.ok THEN bad ELSE bad \cup {"LineContent"}
   \/ \* silent: an unserialisable item is dropped
      /\ l <= Len(Evs) /\ WriteOne /\ childIn' = childIn /\ UNCHANGED <<tid, l, bad>>
+  \/ Is("Rejection") /\ childIn' = Append(childIn, 0) /\ UNCHANGED <<accepted, outq, writeClosed, stdinClosed>> /\ Consume /\ UNCHANGED bad
   \/ Is("CloseWrite") /\ CloseWrite /\ Consume /\ UNCHANGED bad
   \/ Is("StdinClosed") /\ CloseStdin /\ Consume /\ UNCHANGED bad
   \/ Is("End") /\ Consume /\ UNCHANGED <<vars, bad>> /\ outq = <<>> /\ (writeClosed => stdinClosed)
